@@ -188,11 +188,21 @@ def gen_ref_archive(args):
         with open(p, "wb") as fh:
             fh.write(data)
         mf.append({"name": name, "content": p, "len": n, "fclass": "FILL", "haspath": True, "multi": False, "sector_crc": False, "locale": 0})
+    # every seventh archive: a hash table without a free slot (1, 2, 4, 8 or 16 entries in as many slots): the format ends a
+    # lookup when the probe returns to where it started, and the last name placed may sit anywhere in the table (after C02-r7m3)
+    full = k % 7 == 3
+    if full:
+        target = [1, 2, 4, 8, 16][(k // 7) % 5]
+        if target == 1 and listfile and rng.random() < 0.5:
+            listfile = False
+        keep = max(target - (1 if listfile else 0), 0)
+        files, mf = files[:keep], mf[:keep]
+        deleted = 0
     n_entries = len(files) + (1 if listfile else 0)
-    hs = 4
-    while hs < n_entries + deleted + 1:
+    hs = 4 if not full else 1
+    while hs < n_entries + deleted + (0 if full else 1):
         hs *= 2
-    if rng.random() < 0.3:
+    if not full and rng.random() < 0.3:
         hs *= 2
     # where the two tables stand: the header carries both positions, a writer is free to put either first, behind or in front
     # of the file data
